@@ -64,6 +64,12 @@ func c12Patches() []c12Patch {
 	chNoop := "# DESCTOKEN-NOOP\n@@\nvar a, b expression\n@@\n-swap(a, b)\n+swap(b, a)\n"
 	chShrink := "# DESCTOKEN-SHRINK\n@@\nvar x expression\n@@\n-veryLongFunctionName(x)\n+s(x)\n"
 	return []c12Patch{
+		// patches that cannot be loaded: every mode and the library must agree on rejecting them
+		{"reject-unknown-type", []string{chA + "\n@@\nvar x expresion\n@@\n-f2(x)\n+g2(x)\n"}},
+		{"reject-duplicate-metavariable", []string{"@@\nvar x expression\nvar x identifier\n@@\n-f1(x)\n+g1(x)\n"}},
+		{"reject-body-not-go", []string{chA + "\n@@\nvar x expression\n@@\n-f2(x\n+g2(x)\n"}},
+		// a '+' side whose elision has no counterpart on the '-' side
+		{"plus-only-elision", []string{"# DESCTOKEN-A first\n@@\nvar x expression\n@@\n-f1(x)\n+g1(x, ...)\n"}},
 		{"noop-swap", []string{chNoop}},
 		{"noop-swap+A", []string{chNoop + "\n" + chA}},
 		{"shrink", []string{chShrink}},
@@ -437,6 +443,28 @@ func c12Run(env *core.Env, ci any) core.Outcome {
 		w := do()
 		if w.r.Panic != "" {
 			return bad("panic", "gopatch crashed: %s", w.r.Panic)
+		}
+		if w.r.Exit != 0 && strings.Contains(w.r.Stderr, "load patch") {
+			// the default mode rejects the patch: so must the dry-run modes and the library, without output or effect
+			if w.snapDiff != "" {
+				return bad("rejected-but-wrote", "the patch is rejected (%s) but the tree changed:\n%s", firstWords(w.r.Stderr, 8), w.snapDiff)
+			}
+			for _, mode := range [][]string{{"--print-only"}, {"--diff"}, {"--diff", "--print-only"}} {
+				m := do(mode...)
+				if m.r.Panic != "" {
+					return bad("panic", "gopatch crashed: %s", m.r.Panic)
+				}
+				if m.r.Exit == 0 || m.r.Stdout != "" || m.snapDiff != "" {
+					return bad("reject-disagrees", "the default mode rejects the patch (%s) but %v exits %d with stdout %q, tree changes %q", firstWords(w.r.Stderr, 8), mode, m.r.Exit, m.r.Stdout, m.snapDiff)
+				}
+			}
+			if len(c.Patches) == 1 {
+				if _, err := patch.Parse("p0.patch", []byte(c.Patches[0])); err == nil {
+					return bad("reject-disagrees", "the CLI rejects the patch (%s) but patch.Parse accepts it", firstWords(w.r.Stderr, 8))
+				}
+			}
+			out.Class, out.Nontrivial = "reject-agree", true
+			return out
 		}
 		if w.r.Exit != 0 {
 			return core.Outcome{Skip: "default mode failed: " + firstWords(w.r.Stderr, 8)}
